@@ -262,3 +262,65 @@ Proof.
     cbn [sf_wasted sf_body code_of]. rewrite Esh. replace (c + 1 - 1) with c by lia.
     rewrite <- !app_assoc. reflexivity.
 Qed.
+
+(* ---- frame number ---- *)
+Lemma number_cont_inv : forall k acc s v r, p_number_cont k acc s = Ok (v, r) ->
+  exists c, s = c ++ r /\ length c = (8 * k)%nat /\
+            v = acc * 2 ^ (6 * N.of_nat k) + v mod 2 ^ (6 * N.of_nat k) /\ c = cont_bytes v k.
+Proof.
+  induction k as [|k IH]; intros acc s v r H; cbn [p_number_cont] in H.
+  - unfold pret in H. inversion H; subst. exists []. cbn. rewrite N.mod_1_r. repeat split; lia.
+  - unfold pbind in H.
+    destruct (p_rd 2 s) as [[tag s1]| |] eqn:E1; try discriminate. apply inv_rd in E1.
+    destruct (N.eqb_spec tag 2); cbn [p_guard] in H; [|discriminate]. unfold pret at 1 in H. subst tag.
+    destruct (p_rd 6 s1) as [[d s2]| |] eqn:E2; try discriminate.
+    unfold p_rd in E2. destruct (rd 6 s1) as [[d' r']|] eqn:E6; inversion E2; subst. apply rd_inv in E6. destruct E6 as [-> Hd].
+    change (2 ^ N.of_nat 6) with 64 in Hd.
+    destruct (IH _ _ _ _ H) as (c & -> & Lc & Ev & Ec).
+    assert (Hp : 2 ^ (6 * N.of_nat k) <> 0) by (apply N.pow_nonzero; discriminate).
+    assert (Hm : v mod 2 ^ (6 * N.of_nat k) < 2 ^ (6 * N.of_nat k)) by (apply N.mod_upper_bound; exact Hp).
+    assert (Epow : 2 ^ (6 * N.of_nat (S k)) = 64 * 2 ^ (6 * N.of_nat k)).
+    { rewrite Nat2N.inj_succ. replace (6 * N.succ (N.of_nat k)) with (6 + 6 * N.of_nat k) by lia. rewrite N.pow_add_r. reflexivity. }
+    assert (Ediv : v / 2 ^ (6 * N.of_nat k) = acc * 64 + d).
+    { symmetry. apply (N.div_unique v _ _ (v mod 2 ^ (6 * N.of_nat k))); [exact Hm|]. rewrite Ev at 1. lia. }
+    assert (Emod : v mod 2 ^ (6 * N.of_nat (S k)) = d * 2 ^ (6 * N.of_nat k) + v mod 2 ^ (6 * N.of_nat k)).
+    { rewrite Epow. symmetry. apply (N.mod_unique v _ acc); [nia|]. rewrite Ev at 1. lia. }
+    exists (wr 2 2 ++ wr 6 d ++ c). rewrite <- !app_assoc. split; [reflexivity|]. split.
+    { rewrite !app_length, !wr_length, Lc. lia. }
+    split.
+    + rewrite Emod, Epow. rewrite Ev at 1. lia.
+    + cbn [cont_bytes]. unfold cont_byte. rewrite <- Ec. rewrite Ediv.
+      replace (acc * 64 + d) with (d + acc * 64) by lia. rewrite N.mod_add by discriminate.
+      rewrite N.mod_small by exact Hd. rewrite <- !app_assoc. reflexivity.
+Qed.
+
+(* the number of bytes the coded number occupies: leading ones of its first byte (0 -> 1 byte) *)
+Definition number_bytes_used (s : bits) : option nat :=
+  match rd_unary false s with Some (k, _) => Some (if k =? 0 then 1%nat else N.to_nat k) | None => None end.
+
+Lemma frame_number_inv s v r : p_frame_number s = Ok (v, r) ->
+  number_bytes_used s = Some (number_len v) -> v <= MAX_FRAME_NUMBER ->
+  exists nb, write_number v = Some nb /\ s = nb ++ r.
+Proof.
+  unfold p_frame_number, pbind. intros H Hmin Hmax.
+  destruct (p_unary false s) as [[ones s1]| |] eqn:E1; try discriminate.
+  unfold p_unary in E1. destruct (rd_unary false s) as [[k r0]|] eqn:Eu; inversion E1; subst.
+  unfold number_bytes_used in Hmin. rewrite Eu in Hmin. injection Hmin as Hmin.
+  apply rd_unary_inv in Eu. subst s.
+  unfold write_number. destruct (N.ltb_spec MAX_FRAME_NUMBER v); [lia|].
+  destruct (N.eqb_spec ones 0) as [->|N0].
+  - rewrite <- Hmin. cbn [Nat.eqb]. unfold p_rd in H. destruct (rd 7 s1) as [[v' r']|] eqn:E7; inversion H; subst.
+    apply rd_inv in E7. destruct E7 as [-> _]. eexists. split; [reflexivity|]. rewrite <- app_assoc. reflexivity.
+  - destruct ((ones =? 1) || (7 <? ones)) eqn:Eb; [discriminate|].
+    apply orb_false_elim in Eb. destruct Eb as [B1 B2]. apply N.eqb_neq in B1. apply N.ltb_ge in B2.
+    destruct (p_rd (7 - N.to_nat ones) s1) as [[first s2]| |] eqn:E2; try discriminate.
+    unfold p_rd in E2. destruct (rd _ s1) as [[f' r']|] eqn:Ef; inversion E2; subst. apply rd_inv in Ef. destruct Ef as [-> Hf].
+    destruct (number_cont_inv _ _ _ _ _ H) as (c & -> & Lc & Ev & Ec).
+    assert (Hn : number_len v = N.to_nat ones) by lia.
+    rewrite Hn. destruct (Nat.eqb_spec (N.to_nat ones) 1); [lia|].
+    assert (Hp : 2 ^ (6 * N.of_nat (N.to_nat ones - 1)) <> 0) by (apply N.pow_nonzero; discriminate).
+    assert (Ediv : v / 2 ^ (6 * N.of_nat (N.to_nat ones - 1)) = first).
+    { symmetry. apply (N.div_unique v _ _ (v mod 2 ^ (6 * N.of_nat (N.to_nat ones - 1)))); [apply N.mod_upper_bound; exact Hp|].
+      rewrite Ev at 1. lia. }
+    eexists. split; [reflexivity|]. rewrite Ediv, <- Ec, <- !app_assoc. reflexivity.
+Qed.
